@@ -154,7 +154,12 @@ impl Default for Val {
 impl fmt::Debug for Key {
     fn fmt(&self, f: &mut fmt::Formatter<'_>) -> fmt::Result {
         ctl::used(Kind::K, self.p.id);
-        write!(f, "K{}.{}", self.p.cls, self.p.id)
+        // the pretty form is multi-line (like a derived tuple struct), the plain one is not
+        if f.alternate() {
+            write!(f, "K(\n    {},\n    {},\n)", self.p.cls, self.p.id)
+        } else {
+            write!(f, "K{}.{}", self.p.cls, self.p.id)
+        }
     }
 }
 impl fmt::Display for Key {
@@ -166,7 +171,11 @@ impl fmt::Display for Key {
 impl fmt::Debug for Val {
     fn fmt(&self, f: &mut fmt::Formatter<'_>) -> fmt::Result {
         ctl::used(Kind::V, self.id);
-        write!(f, "V{}.{}", self.id, self.val)
+        if f.alternate() {
+            write!(f, "V(\n    {},\n    {},\n)", self.id, self.val)
+        } else {
+            write!(f, "V{}.{}", self.id, self.val)
+        }
     }
 }
 impl fmt::Display for Val {
